@@ -649,4 +649,35 @@ example (tI tX tY : String) (hX : Parses "X" tX { name := "x" } "x") (hY : Parse
     isVisible, structLoopE, fieldStepE, fieldJSONInfoE, underSkip, overrideOf, addFieldE, hX.info, hY.info, hX.desc,
     hY.desc, Res.bind_ok, kindEntry_Int, kindEntry_String, Store.alloc, Store.get?, addNull, dedupKeepLast]
 
+/-! ### `visibleFields` against reflect's walker
+
+  `visibleFields` (the specification: the shallowest field of a name, if it is alone at its depth) and
+  `visibleFieldsWalk` (reflect's implementation: `byName`, cleared names) give the same fields in the same order on
+  trees with promotion, shadowing, equal-depth ambiguity, three-way conflicts, a deeper field met before a shallower
+  one, a cancelled pair followed by deeper and shallower fields, and a hidden anonymous field whose fields are still
+  walked.  (No tag is parsed here, so the examples are closed terms.) -/
+
+/-- an exported field `g int` -/
+def wf (g : String) : FieldE GoTypeE := { goName := g, tag := "", exported := true, embedded := false, type := .basic "Int" }
+/-- an embedded struct `g`, by value or by pointer -/
+def we (g : String) (fs : List (FieldE GoTypeE)) (ptr : Bool := false) : FieldE GoTypeE :=
+  { goName := g, tag := "", exported := true, embedded := true,
+    type := if ptr then .ptr (.named g (.struct fs)) else .named g (.struct fs) }
+
+def walkExamples : List (List (FieldE GoTypeE)) :=
+  [[we "Inner" [wf "X", wf "Y"], wf "A"],
+   [wf "X", we "Inner" [wf "X", wf "Y"] true],
+   [we "A" [wf "X", wf "P"], we "B" [wf "X", wf "Q"]],
+   [we "A" [wf "X"], we "B" [wf "X"] true, we "C" [wf "X"]],
+   [we "A" [we "D" [wf "X", wf "Z"]], we "B" [wf "X"], wf "Z"],
+   [we "A" [wf "X"], we "B" [wf "X"], we "C" [we "D" [wf "X"]], wf "X"],
+   [we "A" [we "B" [wf "Y"]], we "B" [wf "Z"]]]
+
+example : walkExamples.all (fun fs => (visibleFields fs).map (·.index) == (visibleFieldsWalk fs).map (·.index)) = true := by
+  decide
+
+/-- e.g. the last one: the anonymous `B` of depth 2 is hidden by the `B` of depth 1, its field `Y` is promoted all the same -/
+example : (visibleFields [we "A" [we "B" [wf "Y"]], we "B" [wf "Z"]]).map (fun f => (f.goName, f.index)) =
+    [("A", [0]), ("Y", [0, 0, 0]), ("B", [1]), ("Z", [1, 0])] := by decide
+
 end JSV.C16
